@@ -129,10 +129,13 @@ def nameOk (n : Str) : Bool :=
   | [] => false
   | c :: cs => !XNum.isDigit c && (c :: cs).all fun d => isNameChar d && !isQuoteChar d && d != '*'
 
-/-- digits, optionally followed by a point and digits -/
+/-- the characters of a name token: name characters other than quotes -/
+def nameCh (c : Char) : Bool := isNameChar c && c != '"' && c != '\''
+
+/-- digits (which are name characters), optionally followed by a point and digits -/
 def numShape (t : Str) : Bool :=
   let ds := t.takeWhile XNum.isDigit
-  !ds.isEmpty &&
+  !ds.isEmpty && ds.all nameCh &&
   match t.drop ds.length with
   | [] => true
   | '.' :: fr => !fr.isEmpty && fr.all XNum.isDigit
